@@ -21,7 +21,7 @@ RULE = (
     '; pass 6: KL divergence with the event size exactly at max_cholesky_size and Lanczos rank 2; index tensors must not be mutated'
     '; pass 7: sums of two root-represented MVNs; successive draws; the point-mass distribution of the anchor file (Delta: shapes, log_prob, samples, expand leaves the source alone, KL against an MVN = -log density)'
 )
-REQUIRED = ["log_prob", "kl", "kl_identical_zero", "rsample_LLt", "index_mean", "index_covariance", "variance", "mul_scalar", "add_mvn", "delta_distribution"]
+REQUIRED = ["log_prob", "kl", "kl_identical_zero", "rsample_LLt", "index_mean", "index_covariance", "variance", "mul_scalar", "add_mvn", "delta_distribution", "reading_leaves_distribution_alone"]
 ASSUMPTIONS = ["random SPD covariances with condition number < 1e3; event sizes <= 6; stochastic fast-path pieces (SLQ) are not reached at these sizes (Cholesky below max_cholesky_size)"]
 ANCHOR_FILES = ["gpytorch/distributions/multivariate_normal.py", "gpytorch/distributions/delta.py"]
 
@@ -40,6 +40,10 @@ def cases(tier, seed):
             if tier == "quick" and rnd.random() < 0.0:
                 continue
             yield {"kind": "logprob", "N": N, "dbatch": db, "vbatch": vb, "rep": rep, "fast": fast, "mean_less": rnd.random() < 0.3, "seed": rnd.randrange(10**6)}
+        # a component in tiny units (variance below settings.min_variance): `variance` reports the floor - and reading it
+        # (or stddev / confidence_region) leaves the distribution and the caller's tensors as they were
+        for rep, db, reader in itertools.product(["dense", "linop", "diag", "index_view"], [[], [2]], ["variance", "stddev", "confidence_region"]):
+            yield {"kind": "tiny_variance", "rep": rep, "dbatch": db, "reader": reader, "N": 4, "seed": rnd.randrange(10**6)}
         # the point-mass member of the family (gpytorch.distributions.Delta): expand / log_prob / rsample / KL against an MVN
         for N, db, eb, ev in itertools.product([1, 3], [[], [2], [3, 1]], [[2], [4, 3, 2], [3, 2]], [0, 1]):
             yield {"kind": "delta", "N": N, "dbatch": db, "expand": eb, "event_dim": ev, "seed": rnd.randrange(10**6)}
@@ -145,7 +149,71 @@ def run_case(case, ctx):
     from vf import util
 
     g = util.gen(case["seed"])
-    return {"logprob": _logprob, "kl": _kl, "sample": _sample, "arith": _arith, "index": _index, "moments": _moments, "delta": _delta}[case["kind"]](case, ctx, g)
+    return {"logprob": _logprob, "kl": _kl, "sample": _sample, "arith": _arith, "index": _index, "moments": _moments, "delta": _delta, "tiny_variance": _tiny_variance}[case["kind"]](case, ctx, g)
+
+
+def _tiny_variance(case, ctx, g):
+    import warnings
+
+    import torch
+    from linear_operator.operators import DenseLinearOperator, DiagLinearOperator
+
+    from gpytorch import settings as S
+    from gpytorch.distributions import MultivariateNormal as MVN
+    from vf import util
+
+    N, db = case["N"], case["dbatch"]
+    floor = S.min_variance.value(torch.double)
+    a = util.randn(g, *db, N, N)
+    Cw = a @ a.transpose(-1, -2) / N + 0.5 * torch.eye(N)  # well conditioned factor
+    sc = torch.ones(N)
+    sc[1] = 1e-6  # one component in tiny units: variance ~1e-12 < floor
+    if case["rep"] in ("diag", "index_view"):
+        v = (util.rand(g, *db, N) + 0.2) * sc**2
+        K = torch.diag_embed(v)
+    else:
+        K = sc.unsqueeze(-1) * Cw * sc
+    handed = K.clone() if case["rep"] != "diag" else v.clone()
+    keep = handed.clone()
+    if case["rep"] == "dense":
+        d = MVN(util.randn(g, *db, N), handed)
+    elif case["rep"] == "linop":
+        d = MVN(util.randn(g, *db, N), DenseLinearOperator(handed))
+    elif case["rep"] == "diag":
+        d = MVN(util.randn(g, *db, N), DiagLinearOperator(handed))
+    else:
+        # a marginal taken by indexing (its diagonal operator may be a view of the parent's covariance)
+        parent = MVN(util.randn(g, *db, N + 1), DenseLinearOperator(torch.block_diag(torch.ones(1, 1), handed) if not db else torch.stack([torch.block_diag(torch.ones(1, 1), h_) for h_ in handed])))
+        pk = parent.covariance_matrix.clone()
+        d = parent[..., 1:]
+    mean = d.mean.clone()
+    y = mean + util.randn(g, *db, N) * torch.diagonal(K, dim1=-2, dim2=-1).sqrt()
+    with warnings.catch_warnings():
+        warnings.simplefilter("ignore")
+        with torch.no_grad():
+            if case["reader"] == "variance":
+                got = d.variance
+                ref = torch.diagonal(K, dim1=-2, dim2=-1).clamp_min(floor)
+            elif case["reader"] == "stddev":
+                got = d.stddev
+                ref = torch.diagonal(K, dim1=-2, dim2=-1).clamp_min(floor).sqrt()
+            else:
+                lo, hi = d.confidence_region()
+                got = hi - lo
+                ref = 4 * torch.diagonal(K, dim1=-2, dim2=-1).clamp_min(floor).sqrt()
+            ctx.close("variance", got, ref.expand(got.shape), (0.0, 1e-12), cls="tiny:" + case["reader"] + ":" + case["rep"])
+            # ... and the distribution is still N(m, K)
+            ctx.close("reading_leaves_distribution_alone", d.covariance_matrix, K.expand(d.covariance_matrix.shape), (0.0, 1e-13), cls="covariance:" + case["rep"], reader=case["reader"])
+            ctx.expect("reading_leaves_distribution_alone", bool(torch.equal(handed, keep)), f"reading .{case['reader']} changed the tensor the caller built the distribution from", rep=case["rep"], reader=case["reader"])
+            if case["rep"] == "index_view":
+                ctx.close("reading_leaves_distribution_alone", parent.covariance_matrix, pk, "bit", cls="parent_of_indexed", reader=case["reader"])
+            # log density in the units of the well conditioned factor (independent of any jitter the path may add to K)
+            if case["rep"] in ("dense", "linop"):
+                z = (y - mean) / sc
+                ref_lp = util.mvn_logpdf(z, torch.zeros_like(z), Cw) - sc.log().sum()
+                with S.fast_computations(log_prob=False):
+                    ctx.close("reading_leaves_distribution_alone", d.log_prob(y), ref_lp, (1e-6, 1e-6), cls="log_prob_after_read:" + case["rep"], reader=case["reader"])
+    ctx.cell(_cellkey(case), nontrivial=True)
 
 
 def _delta(case, ctx, g):
@@ -190,6 +258,16 @@ def _delta(case, ctx, g):
         q = MVN(util.randn(g, *db, N), C)
         kl = torch.distributions.kl_divergence(d, q)
         ctx.close("delta_distribution", kl, -util.mvn_logpdf(v, q.mean, C), "direct", cls="kl_delta_mvn")
+        # the same against diagonal covariances held as operators (non-unit variances; the whitened prior is the unit case)
+        from linear_operator.operators import ConstantDiagLinearOperator, DiagLinearOperator
+
+        dv = util.rand(g, *db, N) * 2 + 0.1
+        cv = util.rand(g, *db, 1) * 2 + 0.1
+        for tag, op, dense in (("diag", DiagLinearOperator(dv), torch.diag_embed(dv)), ("constant_diag", ConstantDiagLinearOperator(cv, diag_shape=N), torch.diag_embed(cv.expand(*db, N))),
+                               ("unit_diag", DiagLinearOperator(torch.ones(*db, N)), torch.eye(N).expand(*db, N, N))):
+            qm = util.randn(g, *db, N)
+            kl = torch.distributions.kl_divergence(d, MVN(qm, op))
+            ctx.close("delta_distribution", kl, -util.mvn_logpdf(v, qm, dense), "direct", cls="kl_delta_mvn:" + tag)
     ctx.cell(_cellkey(case), nontrivial=True)
 
 
